@@ -1,7 +1,10 @@
 package main
 
 import (
+	"fmt"
+	"reflect"
 	"sort"
+	"time"
 
 	ucfg "github.com/elastic/go-ucfg"
 	"github.com/elastic/go-ucfg/diff"
@@ -134,6 +137,31 @@ func doRead(cfg *ucfg.Config, rd J, ropts []ucfg.Option) (res interface{}) {
 			return errKind(err)
 		}
 		return doRead(ch, J{"r": "view"}, ropts)
+	case "typed":
+		// Unpack of one setting into a typed struct field: struct{ X T `config:"<name>"` }
+		var ft reflect.Type
+		switch str(rd, "ty") {
+		case "strings":
+			ft = reflect.TypeOf([]string(nil))
+		case "ifaces":
+			ft = reflect.TypeOf([]interface{}(nil))
+		case "duration":
+			ft = reflect.TypeOf(time.Duration(0))
+		case "int":
+			ft = reflect.TypeOf(int64(0))
+		case "ptrstring":
+			ft = reflect.TypeOf((*string)(nil))
+		case "array1":
+			ft = reflect.TypeOf([1]string{})
+		default:
+			ft = reflect.TypeOf("")
+		}
+		st := reflect.StructOf([]reflect.StructField{{Name: "X", Type: ft, Tag: reflect.StructTag(fmt.Sprintf(`config:%q`, name))}})
+		target := reflect.New(st)
+		if err := cfg.Unpack(target.Interface(), ropts...); err != nil {
+			return errKind(err)
+		}
+		return okRes(canonGoVal(target.Elem().Field(0)))
 	case "keys":
 		k := append([]string{}, cfg.FlattenedKeys(ropts...)...)
 		sort.Strings(k)
